@@ -37,7 +37,7 @@ class Vis(AGPVisitor):
 
 
 def run(ctx):
-    tasks = solverexp.standard_plan(ctx, VIS)
+    tasks = solverexp.standard_plan(ctx, VIS, refine_ops=True, deep_runs=True)
     res, agg = solverexp.execute(tasks)
     s = agg["summary"]
     res.cov = dict(
